@@ -2,7 +2,7 @@
 
 use crate::engine::{fp, replay_entry, CaseInfo, ReplayEntry, Run, Verdict};
 use crate::gen::{arb_value, GenCfg};
-use crate::netbed::{advance, connected_pair, library_panics_since, panic_mark, run_case, BedErr};
+use crate::netbed::{advance, connected_pair, drain, library_panics_since, panic_mark, run_case, BedErr};
 use crate::terms::denote;
 use edp_client::flags::DistributionFlags;
 use edp_client::Connection;
@@ -66,6 +66,10 @@ pub struct Case {
     /// after the last message the peer starts one more frame and disappears inside it (FIN); the value picks where
     #[serde(default)]
     pub dies_inside: Option<u16>,
+    /// read-half loop only: the peer falls silent at a frame boundary for 6..20 virtual seconds (longer than the
+    /// receiver's per-frame timeout), and the frame that ends the silence arrives in two pieces
+    #[serde(default)]
+    pub quiet: Option<(u16, u8)>,
 }
 
 const WITH_PAYLOAD: &[u8] = &[2, 6, 12, 16, 22, 23, 24, 25, 26, 27, 28, 33, 34];
@@ -345,7 +349,34 @@ fn run_net(c: &Case, b: &Built) -> Result<Result<Vec<Got>, String>, BedErr> {
         let sender = async {
             let cuts: Vec<usize> = c.cuts.iter().map(|k| (*k as usize * stream.len()) >> 16).collect();
             let pp = p.as_mut().unwrap();
-            let _ = pp.write_segmented(&stream, &cuts).await;
+            let mut starts = vec![];
+            let mut i = 0usize;
+            while i + 4 <= stream.len() {
+                let l = u32::from_be_bytes([stream[i], stream[i + 1], stream[i + 2], stream[i + 3]]) as usize;
+                if i + 4 + l > stream.len() {
+                    break;
+                }
+                starts.push(i);
+                i += 4 + l;
+            }
+            match c.quiet {
+                Some((pos, secs)) if c.read_half && starts.len() >= 2 => {
+                    let b = starts[1 + pos as usize % (starts.len() - 1)];
+                    let scaled = |from: usize, to: usize| -> Vec<usize> { c.cuts.iter().map(|k| (*k as usize * (to - from)) >> 16).collect() };
+                    let _ = pp.write_segmented(&stream[..b], &scaled(0, b)).await;
+                    pp.settle().await;
+                    advance(Duration::from_secs(6 + secs as u64 % 15)).await;
+                    let first = [1usize, 2, 3, 4, 5, 9][(pos >> 8) as usize % 6].min(stream.len() - b - 1).max(1);
+                    let _ = pp.write(&stream[b..b + first]).await;
+                    pp.settle().await;
+                    std::thread::sleep(Duration::from_millis(2));
+                    drain().await;
+                    let _ = pp.write_segmented(&stream[b + first..], &scaled(b + first, stream.len())).await;
+                }
+                _ => {
+                    let _ = pp.write_segmented(&stream, &cuts).await;
+                }
+            }
             pp.settle().await;
             if partial {
                 // the peer goes away for good inside the frame it has just started
@@ -481,6 +512,7 @@ pub fn oracle(c: &Case) -> Verdict {
         .class_if(c.read_half, "read-half-loop")
         .class_if(!c.cuts.is_empty(), "segmented-stream")
         .class_if(died_inside, "peer-died-inside-a-frame")
+        .class_if(c.quiet.is_some() && c.read_half, "silence-then-a-split-frame")
         .class_if(b.expected.iter().any(|e| e.2), "multi-fragment");
     if missing_fragmented > 0 {
         return Verdict::Known {
@@ -523,9 +555,9 @@ fn strategy() -> impl Strategy<Value = Case> {
         2 => Just(Item::Tick),
         3 => junk.prop_map(Item::Junk),
     ];
-    (any::<bool>(), prop::collection::vec(item, 1..14), prop::collection::vec(any::<u16>(), 0..8), prop::bool::weighted(0.25), prop::option::weighted(0.3, any::<u16>())).prop_map(|(header_mode, items, cuts, read_half, dies_inside)| {
+    (any::<bool>(), prop::collection::vec(item, 1..14), prop::collection::vec(any::<u16>(), 0..8), prop::bool::weighted(0.25), prop::option::weighted(0.3, any::<u16>()), prop::option::weighted(0.5, (any::<u16>(), any::<u8>()))).prop_map(|(header_mode, items, cuts, read_half, dies_inside, quiet)| {
         // the node's read loop (read-half variant) cannot skip bad frames by itself: its caller decides; junk is allowed there too
-        Case { header_mode, items, cuts, read_half, dies_inside }
+        Case { header_mode, items, cuts, read_half, dies_inside, quiet }
     })
 }
 
@@ -533,7 +565,7 @@ pub fn run(run: &mut Run) {
     run.rule = "scripts of up to 14 items from a conforming sender model over a real loopback socket: every control-message kind of the protocol table with fields and payloads from the term space (a few bytes to \
         200 KB), in pass-through form, with a distribution header (persistent sender atom cache, all segments; slots follow from the atom text, half of the messages squeeze their atoms into six slots so that slots are overwritten and referred to again) or split into 1..5 fragments, interleaved with ticks and with malformed frames (random bytes, truncated \
         terms, wrong marker, short fragment headers, continuations of unknown sequences, non-tuple / empty-tuple control terms), the byte stream cut into arbitrary TCP writes; a sentinel ends each script; in 30% of the scripts the peer then starts one more frame and closes the connection inside it (between control term and payload, inside the length prefix, anywhere), which must not be returned as a message. \
-        Both Connection::receive_message and receive_message_from_read_half are driven. Oracle: Ok results in order = valid messages in order, each once; at most one error per bad frame; no panic. \
+        Both Connection::receive_message and receive_message_from_read_half are driven; for the latter the peer may fall silent for 6..20 virtual seconds (longer than the per-frame timeout of 5 s) and end the silence with a frame that arrives in two pieces. Oracle: Ok results in order = valid messages in order, each once; at most one error per bad frame; no panic. \
         Non-trivial = >= 3 valid messages and a junk frame, tick, non-pass-through form or split stream"
         .into();
     run.assumptions = vec![
